@@ -6174,6 +6174,10 @@ func (p *parser) parseFn(
 	fn.OpenParenLoc = p.lexer.Loc()
 	p.lexer.Expect(js_lexer.TOpenParen)
 
+	// The "in" operator is allowed in function arguments, even inside a for loop initializer
+	oldAllowIn := p.allowIn
+	p.allowIn = true
+
 	// Await and yield are not allowed in function arguments
 	oldFnOrArrowData := p.fnOrArrowDataParse
 	if data.await == allowExpr {
@@ -6357,6 +6361,7 @@ func (p *parser) parseFn(
 
 	p.lexer.Expect(js_lexer.TCloseParen)
 	p.fnOrArrowDataParse = oldFnOrArrowData
+	p.allowIn = oldAllowIn
 
 	// "function foo(): any {}"
 	if p.options.ts.Parse && p.lexer.Token == js_lexer.TColon {
